@@ -64,6 +64,13 @@ func (env *SpecEnv) ghostCall(name string, x *ast.CallExpr) (Val, bool) {
 			rv := env.eval(x.Args[1])
 			return intVal(App("bound:"+strings.Trim(bl.Value, `"`), SInt, rv.C...)), true
 		}
+	case "rawbyte":
+		// rawbyte(arr, idx): the byte at a raw (array id, index) location of the byte memory in this state
+		a := env.eval(x.Args[0]).C[0]
+		i := env.eval(x.Args[1]).C[0]
+		cp := layout(tByte)[0]
+		h := vc.heapIn(env.st, heapNameFor(tByte, cp), heapSort(cp))
+		return mkVal(tByte, Select(Select(h, a), i)), true
 	case "tracelen":
 		return intVal(vc.heapIn(env.st, "$TraceLen", SInt)), true
 	case "ev":
@@ -723,7 +730,10 @@ func (vc *VC) applyContract(x ast.Node, con *Contract, full string, sig *types.S
 	}
 	envPost := &SpecEnv{vc: vc, st: st, old: pre, names: post, pkg: calleePkg, where: "ensures of " + full}
 	for _, e := range con.Ensures {
-		t := vc.specBool(envPost, e.Expr)
+		if mentionsTrace(e.Expr) {
+			continue // clauses about the callee's own call trace are internal to the callee
+		}
+		t := vc.specAssumable(envPost, e.Expr)
 		vc.assumeAt(st, t)
 	}
 	return res
@@ -1115,4 +1125,20 @@ func (vc *VC) evalAppend(x *ast.CallExpr, st *State) Val {
 // builtinModel: precise models for a few standard/dependency functions that need no contract file entry.
 func (vc *VC) builtinModel(x ast.Node, full string, sig *types.Signature, args []Val, st *State, rt types.Type) (Val, bool) {
 	return Val{}, false
+}
+
+func mentionsTrace(e ast.Expr) bool {
+	found := false
+	ast.Inspect(e, func(n ast.Node) bool {
+		if c, ok := n.(*ast.CallExpr); ok {
+			if id, ok := c.Fun.(*ast.Ident); ok {
+				switch id.Name {
+				case "tracelen", "ev", "evarg", "evres":
+					found = true
+				}
+			}
+		}
+		return !found
+	})
+	return found
 }
